@@ -332,12 +332,19 @@ def _reject_pseudo_header_fields(headers, hdr_validation_flags):
 
     for header in headers:
         if _custom_startswith(header[0], b':', u':'):
-            if header[0] in seen_pseudo_header_fields:
+            # Remember names as bytes: ':status' and b':status' are the same
+            # field once they are on the wire.
+            if isinstance(header[0], bytes):
+                pseudo_name = header[0]
+            else:
+                pseudo_name = header[0].encode('utf-8')
+
+            if pseudo_name in seen_pseudo_header_fields:
                 raise ProtocolError(
                     "Received duplicate pseudo-header field %s" % header[0]
                 )
 
-            seen_pseudo_header_fields.add(header[0])
+            seen_pseudo_header_fields.add(pseudo_name)
 
             if seen_regular_header:
                 raise ProtocolError(
